@@ -1765,6 +1765,67 @@ def channel_transfer_ok(n_pre: int, nested: int, item) -> bool:
     return True
 
 
+def channel_forgotten_ok(kind: int, ending: int, n_items: int, item) -> bool:
+    """One conversation on channel 1 of the initiating side, of `kind` 0 = queue receiver, 1 = callback,
+    2 = callback with endmarker, carrying n_items items (the symbolic `item`) and finished by `ending`:
+    0 local close; 1 peer close; 2 local object dropped, then peer close; 3 peer LAST_MESSAGE then local close;
+    4 local close then (late) peer close; 5 peer close with error; 6 local object dropped only.
+    Afterwards neither table of the gateway knows the id any more (6, callback kinds: the callback keeps
+    the conversation alive by design until the peer closes - then it is forgotten too), a requested endmarker was
+    delivered exactly once, after the items."""
+    END = 77
+    M = gb.Message
+    wire = b""
+    for _ in range(n_items):
+        wire = wire + data_frame(1, item)
+    closing = {1: ref_frame(M.CHANNEL_CLOSE, 1, b""), 2: ref_frame(M.CHANNEL_CLOSE, 1, b""), 3: ref_frame(M.CHANNEL_LAST_MESSAGE, 1, b""),
+               4: ref_frame(M.CHANNEL_CLOSE, 1, b""), 5: ref_frame(M.CHANNEL_CLOSE_ERROR, 1, gb.dumps_internal("boom")),
+               6: ref_frame(M.CHANNEL_CLOSE, 1, b"")}
+    G = make_gateway(wire + closing.get(ending, b""))
+    fac = G._channelfactory
+    ch = G.newchannel()
+    cid = ch.id
+    seen = []
+    if kind == 1:
+        ch.setcallback(seen.append)
+    elif kind == 2:
+        ch.setcallback(seen.append, endmarker=END)
+    pump_frames(G, n_items)
+    if ending == 0:
+        ch.close()
+    elif ending == 1 or ending == 5:
+        pump_frames(G, 1)
+    elif ending == 2:
+        drop_channel(G, ch)
+        pump_frames(G, 1)
+    elif ending == 3:
+        pump_frames(G, 1)
+        ch.close()
+    elif ending == 4:
+        ch.close()
+        pump_frames(G, 1)
+    elif ending == 6:
+        drop_channel(G, ch)
+        if kind != 0:
+            # a dropped callback channel stays registered (send-only for the peer) until the peer closes it
+            if cid not in fac._callbacks:
+                return False
+            pump_frames(G, 1)
+    if ending not in (2, 6):
+        if not ch.isclosed():
+            return False
+        drop_channel(G, ch)
+    if cid in fac._callbacks or cid in fac._channels:
+        return False
+    if len(fac._callbacks) != 0 or len(fac._channels) != 0:
+        return False
+    if kind == 1 and seen != [item] * n_items:
+        return False
+    if kind == 2 and seen != [item] * n_items + [END]:
+        return False
+    return True
+
+
 def channel_id_roundtrip_ok(cid, nested: bool) -> bool:
     """save_Channel / load_channel with a symbolic id: the receiving gateway's channel with exactly that id,
     and the same object when the id is already registered."""
@@ -1964,6 +2025,30 @@ def rsync_tree_ok(dmode, fmode, fmtime, fcontent, prior: int, delete: bool, two_
 # C16: the proxied transport (master ProxyIO <-> forwarder serve_proxy_io <-> sub IO)
 # ---------------------------------------------------------------------------------------
 
+class _SubProcess:
+    """the proxied process as a subprocess.Popen would show it while it is still running"""
+
+    pid = 4242
+    returncode = None
+
+    def __init__(self, calls):
+        self.calls = calls
+
+    def poll(self):
+        self.calls.append("popen.poll")
+        return None
+
+    def wait(self, timeout=None):
+        self.calls.append("wait")
+        return 7
+
+    def kill(self):
+        self.calls.append("kill")
+
+    def terminate(self):
+        self.calls.append("popen.terminate")
+
+
 class ScriptedSubIO:
     """what create_io() returns on the forwarder: the IO of the proxied sub process"""
 
@@ -1973,6 +2058,7 @@ class ScriptedSubIO:
         self.written = []
         self.calls = []
         self.remoteaddress = "sub-address"
+        self.popen = _SubProcess(self.calls)
 
     def read(self, n):
         buf = b""
